@@ -8,10 +8,21 @@ ASSUME = [
 ]
 
 
-def build_server(run, tag, spec_path, extra_flags=(), client=False):
-    """Real `swagger generate server` into a scratch module + the generic reflection driver."""
+def build_server(run, tag, spec_path, extra_flags=(), client=False, first_spec=None):
+    """Real `swagger generate server` into a scratch module + the generic reflection driver.
+    first_spec: an earlier revision of the document, generated into the same target first."""
     swagger = run.build_swagger()
     mod = run.scratch_module("srv-" + tag, modname="scratch/gen")
+    if first_spec:
+        g = run.sh([swagger, "generate", "server", "-f", first_spec, "-t", mod, "--name", "verif"] + list(extra_flags),
+                   cwd=mod, check=False, timeout=1800)
+        if g.returncode != 0:
+            return None, "generate (earlier revision): " + g.stderr[-2000:]
+        # configure_<name>.go belongs to the user and is not rewritten; its handler signatures follow the security of
+        # the revision it was written for: the user deletes it to get the one of the new revision
+        cf = os.path.join(mod, "restapi", "configure_verif.go")
+        if os.path.exists(cf):
+            os.remove(cf)
     g = run.sh([swagger, "generate", "server", "-f", spec_path, "-t", mod, "--name", "verif"] + list(extra_flags),
                cwd=mod, check=False, timeout=1800)
     if g.returncode != 0:
@@ -118,8 +129,17 @@ def check_c06(run):
         run.sh([vh, "sec-materialise", "-cases", cp, "-out", sp])
         evs_all, n_all = [], 0
         # the whole document, and generation restricted to the operations tagged `sel` (Security!Selection)
-        for variant, flags in (("all", []), ("tagged", ["--tags", "sel"]), ("autoconf", ["--implementation-package", "scratch/gen/impl"])):
-            e, n = one_variant(g, cs, sp, variant, flags)
+        # the earlier revision for `regenerated`: the same operations, each with the requirement of its neighbour,
+        # under another document-level requirement
+        prev = [dict(c, inherit=d["inherit"], own=d["own"]) for c, d in zip(cs, cs[1:] + cs[:1])]
+        og = byg[globs[(globs.index(g) + 1) % len(globs)]][0]
+        prev = [dict(c, ghas=og["ghas"], galts=og["galts"]) for c in prev]
+        pp = run.path("sec-%s-prev.ndjson" % g); write_ndjson(pp, prev)
+        self_prev = run.path("sec-%s-prev.json" % g)
+        run.sh([vh, "sec-materialise", "-cases", pp, "-out", self_prev])
+        for variant, flags in (("all", []), ("tagged", ["--tags", "sel"]), ("autoconf", ["--implementation-package", "scratch/gen/impl"]),
+                               ("regenerated", [])):
+            e, n = one_variant(g, cs, sp, variant, flags, self_prev)
             evs_all += e; n_all += n
         return g, evs_all, n_all
 
@@ -142,11 +162,11 @@ def check_c06(run):
             return None, "build: " + b.stderr[-3000:]
         return out, ""
 
-    def one_variant(g, cs, sp, variant, flags):
+    def one_variant(g, cs, sp, variant, flags, prev_spec):
         if variant == "autoconf":
             drv, err = build_autoconf(g, sp, flags)
         else:
-            drv, err = build_server(run, g + "-" + variant, sp, extra_flags=flags)
+            drv, err = build_server(run, g + "-" + variant, sp, extra_flags=flags, first_spec=prev_spec if variant == "regenerated" else None)
         if not drv:
             return [dict(ev="Server", g=g, ok=False, err=err[:800])], 0
         reqs, meta = [], []
